@@ -153,6 +153,7 @@ def gen_lines(g, n):
     out = []
     add = lambda suite, line: out.append((suite, line))
     w = max(1, n // 100)      # weight unit
+    ncases = n                # (`n` is reused as a local name below)
 
     # --- division family
     for _ in range(10 * w):
@@ -424,7 +425,7 @@ def gen_lines(g, n):
     # --- represent_integer / represent_integer_non_diag: the real functions (level 1 constants) over a byte stream
     pL = vlib.LEVELS[1]["p"]
     trials = klpt_trials()
-    nrep = max(4, n // 1500)
+    nrep = max(4, ncases // 1500)
     for i in range(nrep):
         nd = i % 2
         c = r.below(10)
@@ -433,7 +434,7 @@ def gen_lines(g, n):
             stream = bytes(r.below(256) for _ in range(64))
         elif c == 1:
             tgt = pL * 2 ** r.below(12) + r.bits(200); cl = "n~p"
-            stream = bytes(r.below(256) for _ in range(40000))
+            stream = r.bits(8 * 40000).to_bytes(40000, "little")
         elif c == 2:
             ub = r.choice([100, 124]); u = r.bits(ub) | 1 | (1 << (ub - 1)); L = pL.bit_length() + 15 - ub
             tgt = u * (2 ** L - u); cl = "stream-too-short"
@@ -441,7 +442,7 @@ def gen_lines(g, n):
         else:
             ub = r.choice([90, 100, 110, 120, 124, 126, 130]); u = r.bits(ub) | 1 | (1 << (ub - 1)); L = pL.bit_length() + 15 - ub
             tgt = u * (2 ** L - u); cl = "fixed-degree-like u(2^L-u)"
-            stream = bytes(r.below(256) for _ in range(40000))
+            stream = r.bits(8 * 40000).to_bytes(40000, "little")
         g.count("repint:" + cl)
         add("repint", "repint %x %x %s %s %s" % (nd, trials, hx(pL), hx(tgt), stream.hex()))
     return out
